@@ -1,9 +1,9 @@
 //! G1 correspondence harness for C10: runs add / remove / recover / update_state programs on the
 //! REAL mpmc::Container<Pay> under the baton scheduler and prints every gated access.
-//! usage: c10 exh <bound> <shard> <nshards> <seed> <maxexecs> [crash:0|1|2]
+//! usage: c10 exh <bound> <shard> <nshards> <seed> <maxexecs> [set: 0 quick | 1 thorough]
 //!        c10 rnd <count> <shard> <nshards> <seed>
 //!        c10 one <cap> <program> <schedule>          (replay; program "a1,r0,a2|u,u", schedule "0,0,1")
-//!        c10 progs                                   (lists the enumerated programs)
+//!        c10 progs [set]                             (lists the enumerated programs)
 //!        c10 soak <millis> <cap> <writers> <readers> <seed>   (real threads, ungated, self-checking payloads)
 //!
 //! program tokens (one thread = comma separated list, threads separated by '|'):
@@ -14,6 +14,8 @@
 //!   x<p>        recover(current owner, |_| p == 1, Default); afterwards the thread forgets all its handles and
 //!               continues under a fresh owner id
 //!   u           update_state(this thread's own ContainerState), then list it with for_each
+//!   g           everything before it in this thread is setup: executed ungated (and unlogged) before any thread's
+//!               first gated access; the driver runs the model thread through the same operations first
 //! return codes (R lines) = tag + 8 * payload (see coq/model/Container.v):
 //!   add     tag 1, payload res + 128*id, res = 1+index | 0 OutOfSpace | 64 IsLocked
 //!   remove  tag 2, payload res + 128*j,  res = 0 Unlocked | 1 Locked | 2 Err
@@ -39,13 +41,13 @@ fn pay(id: u64) -> Pay { Pay { a: id, b: !id } }
 fn digit(p: &Pay) -> u64 { if p.b == !p.a && p.a >= 1 && p.a <= 30 { p.a } else { 31 } }
 
 #[derive(Clone, Copy, Debug, PartialEq)]
-enum Op { Add(u64, Option<usize>), Rem(usize, Option<usize>), Rec(bool), Upd }
+enum Op { Add(u64, Option<usize>), Rem(usize, Option<usize>), Rec(bool), Upd, Go }
 
 fn op_str(o: &Op) -> String {
     match o {
         Op::Add(id, None) => format!("a{}", id), Op::Add(id, Some(k)) => format!("A{}k{}", id, k),
         Op::Rem(j, None) => format!("r{}", j), Op::Rem(j, Some(k)) => format!("R{}k{}", j, k),
-        Op::Rec(p) => format!("x{}", *p as u8), Op::Upd => "u".into(),
+        Op::Rec(p) => format!("x{}", *p as u8), Op::Upd => "u".into(), Op::Go => "g".into(),
     }
 }
 fn parse_op(s: &str) -> Op {
@@ -57,6 +59,7 @@ fn parse_op(s: &str) -> Op {
         "R" => { let (i, k) = two(&s[1..]); Op::Rem(i as usize, Some(k)) }
         "x" => Op::Rec(&s[1..] == "1"),
         "u" => Op::Upd,
+        "g" => Op::Go,
         _ => panic!("bad op {}", s),
     }
 }
@@ -67,7 +70,7 @@ fn parse_prog(s: &str) -> Vec<Vec<Op>> { s.split('|').map(|t| t.split(',').filte
 
 type Body = Box<dyn FnOnce() + Send>;
 
-pub struct Sut { c: Box<Container<Pay>>, _mem: Vec<u64>, cap: usize }
+pub struct Sut { c: Box<Container<Pay>>, _mem: Vec<u64>, cap: usize, setup: std::sync::Mutex<Vec<(usize, u64)>> }
 unsafe impl Send for Sut {}
 unsafe impl Sync for Sut {}
 
@@ -78,7 +81,7 @@ fn make(cap: usize) -> Arc<Sut> {
     // the container holds self-relative pointers: box before init
     let mut c = Box::new(unsafe { Container::<Pay>::new_uninit(cap) });
     unsafe { c.init(&alloc).unwrap() };
-    Arc::new(Sut { c, _mem: mem, cap })
+    Arc::new(Sut { c, _mem: mem, cap, setup: Default::default() })
 }
 
 /// the three RelocatablePointer distance fields (layout constants of this instance, inputs of the
@@ -91,7 +94,8 @@ fn distances(s: &Sut) -> [u64; 3] {
 }
 
 fn rc(tag: u64, payload: u64) -> u64 { tag + 8 * payload }
-fn owner_of(t: usize, epoch: u64) -> OwnerId { OwnerId::new(1 + 16 * t as u64 + epoch).unwrap() }
+/// injective in (t, epoch), as in the model: 2 * 2^t * (2 epoch + 1)
+fn owner_of(t: usize, epoch: u64) -> OwnerId { OwnerId::new(2 * (1u64 << t) * (2 * epoch + 1)).unwrap() }
 
 fn snap_code(st: &ContainerState<Pay>) -> u64 {
     let mut code = 0u64;
@@ -109,8 +113,12 @@ fn bodies(s: &Arc<Sut>, prog: &[Vec<Op>]) -> Vec<Body> {
         v.push(Box::new(move || {
             let mut handles: Vec<Option<ContainerHandle>> = Vec::new();
             let mut epoch = 0u64;
-            for op in ops {
+            let nsetup = ops.iter().position(|o| *o == Op::Go).unwrap_or(0);
+            let in_setup = std::cell::Cell::new(true);
+            let ret = |code: u64| { if in_setup.get() { s.setup.lock().unwrap().push((t, code)); } else { sched::ret(code); } };
+            let mut run_op = |op: Op| {
                 match op {
+                    Op::Go => {}
                     Op::Add(id, fuse) => {
                         let o = owner_of(t, epoch);
                         let r = match fuse { None => Some(unsafe { s.c.add(pay(id), o) }), Some(k) => with_fuse(k, || unsafe { s.c.add(pay(id), o) }) };
@@ -141,7 +149,10 @@ fn bodies(s: &Arc<Sut>, prog: &[Vec<Op>]) -> Vec<Body> {
                         ret(rc(4, ch as u64 + 2 * snap_code(&st)));
                     }
                 }
-            }
+            };
+            ungated(|| { for op in &ops[..nsetup] { run_op(*op); } });
+            in_setup.set(false);
+            for op in &ops[nsetup..] { run_op(*op); }
         }));
     }
     v
@@ -174,8 +185,10 @@ fn emit(cap: usize, prog: &[Vec<Op>], ex: &Exec, s: &Sut, out: &mut impl Write) 
     let snap = snap_code(&st);
     let again = unsafe { s.c.update_state(&mut st) };
     let mut toks = vec![snap.to_string(), s.c.len().to_string(), (again as u8).to_string()];
+    for (t, code) in s.setup.lock().unwrap().iter() { toks.push(format!("{}.0.0.{}", t, code)); }
     let mut start: Vec<Option<usize>> = vec![None; prog.len()];
     for (pos, r) in ex.log.iter().enumerate() {
+        let pos = pos + 1;
         match r {
             Rec::Acc { tid, .. } => { if start[*tid].is_none() { start[*tid] = Some(pos); } }
             Rec::Ret { tid, code } => { if *code != u64::MAX { toks.push(format!("{}.{}.{}.{}", tid, start[*tid].unwrap_or(pos), pos, code)); } start[*tid] = None; }
@@ -186,61 +199,39 @@ fn emit(cap: usize, prog: &[Vec<Op>], ex: &Exec, s: &Sut, out: &mut impl Write) 
 
 fn ups(n: usize) -> Vec<Op> { vec![Op::Upd; n] }
 
-/// enumerated programs: (capacity, threads).  crash: 0 = none, 1 = only programs with an abandoned call, 2 = both
-fn programs(crash: u8) -> Vec<(usize, Vec<Vec<Op>>)> {
-    use Op::*;
+/// enumerated programs: (capacity, threads).  set 0 = quick, 1 = thorough (superset).
+fn programs(set: u8) -> Vec<(usize, Vec<Vec<Op>>)> {
+    let p = |cap: usize, s: &str| (cap, parse_prog(s));
     let mut v = Vec::new();
-    if crash != 1 {
-        // one writer with slot reuse against a refreshing reader
-        let w1: Vec<Vec<Op>> = vec![
-            vec![Add(1, None), Rem(0, None)],
-            vec![Add(1, None), Rem(0, None), Add(2, None)],
-            vec![Add(1, None), Add(2, None), Rem(0, None), Add(3, None)],
-            vec![Add(1, None), Rec(true), Add(2, None)],
-            vec![Add(1, None), Add(2, None), Rec(false), Rem(1, None)],
-            vec![Add(1, None), Rem(0, None), Add(2, None), Rem(1, None), Add(3, None)],
-        ];
-        for cap in 1..=3usize {
-            for w in &w1 {
-                for nu in 1..=3usize { v.push((cap, vec![w.clone(), ups(nu)])); }
-            }
-        }
-        // two writers and a reader: the release / generation-CAS window of one against the add of the other
-        let w2a: Vec<Vec<Op>> = vec![
-            vec![Add(1, None), Rem(0, None)],
-            vec![Add(1, None), Rem(0, None), Add(2, None)],
-            vec![Add(1, None), Rec(true)],
-        ];
-        let w2b: Vec<Vec<Op>> = vec![
-            vec![Add(4, None)],
-            vec![Add(4, None), Rem(0, None)],
-            vec![Add(4, None), Rem(0, None), Add(5, None)],
-        ];
-        for cap in 1..=2usize {
-            for a in &w2a { for b in &w2b { for nu in 1..=2usize {
-                v.push((cap, vec![a.clone(), b.clone(), ups(nu)]));
-            } } }
-        }
-        // two writers, no reader; two readers
-        v.push((1, vec![vec![Add(1, None), Rem(0, None), Add(2, None)], vec![Add(4, None), Rem(0, None), Add(5, None)]]));
-        v.push((2, vec![vec![Add(1, None), Rem(0, None), Add(2, None)], vec![Add(4, None), Rem(0, None), Add(5, None)]]));
-        v.push((1, vec![vec![Add(1, None), Rem(0, None), Add(2, None)], ups(2), ups(2)]));
-        v.push((3, vec![vec![Add(1, None), Add(2, None), Add(3, None), Add(6, None), Rem(1, None)], vec![Add(4, None), Rem(0, None)], ups(2)]));
+    // --- no abandoned call: the slot-reuse windows (setup before `g` is not scheduled) ---
+    for s in ["a1,r0|u", "a1|u,u", "a1,g,r0,a2|u,u", "a1,g,r0|a4|u,u", "a1,g,x1|a4|u,u", "a1,g,r0|a4,r0", "a1,g,x1,a2|u,u", "a1,r0,a2|u,u"] { v.push(p(1, s)); }
+    for s in ["a1,a2,g,r0,a3|u,u", "a1,g,r0|a4|u,u", "a1,a2,g,x0,r1|u,u", "a1,a2,g,x1|u,u", "a1,g,r0,a2|a4,r0|u"] { v.push(p(2, s)); }
+    for s in ["a1,a2,a3,g,r1,a5|a4|u,u", "a1,a2,g,r0,a3,a5|u,u,u"] { v.push(p(3, s)); }
+    // --- the owner dies inside add / remove after k accesses, is recovered, a reader looks ---
+    for k in 1..=13usize {
+        v.push(p(1, &format!("A1k{},x1|u", k)));
+        if k <= 7 { v.push(p(1, &format!("a1,g,R0k{},x1|u", k))); }
+        if k == 6 || k == 8 || k == 9 { v.push(p(1, &format!("A1k{},x1|a4|u", k))); }
     }
-    if crash != 0 {
-        // the owner dies inside add / remove after k accesses; somebody recovers it; a reader looks
-        for cap in 1..=2usize {
-            for k in 1..=14usize {
-                v.push((cap, vec![vec![Add(1, Some(k)), Rec(true)], ups(2)]));
-                v.push((cap, vec![vec![Add(1, None), Rem(0, None), Add(2, Some(k)), Rec(true), Add(3, None)], ups(2)]));
-            }
-            for k in 1..=6usize {
-                v.push((cap, vec![vec![Add(1, None), Rem(0, Some(k)), Rec(true)], ups(2)]));
-            }
-            for k in [3usize, 5, 7, 8, 9, 10, 11, 12] {
-                v.push((cap, vec![vec![Add(1, Some(k)), Rec(true)], vec![Add(4, None)], ups(2)]));
+    if set >= 1 {
+        for cap in 1..=3usize {
+            for w in ["a1,r0", "a1,r0,a2", "a1,a2,r0,a3", "a1,x1,a2", "a1,a2,x0,r1", "a1,r0,a2,r1,a3"] {
+                for nu in 1..=3usize { v.push(p(cap, &format!("{}|{}", w, vec!["u"; nu].join(",")))); }
             }
         }
+        for cap in 1..=2usize {
+            for a in ["a1,r0", "a1,r0,a2", "a1,x1"] { for b in ["a4", "a4,r0", "a4,r0,a5"] { for nu in 1..=2usize {
+                v.push(p(cap, &format!("{}|{}|{}", a, b, vec!["u"; nu].join(","))));
+            } } }
+            for k in 1..=13usize {
+                v.push(p(cap, &format!("a1,r0,A2k{},x1,a3|u,u", k)));
+                v.push(p(cap, &format!("A1k{},x1|a4|u,u", k)));
+            }
+        }
+        v.push(p(1, "a1,r0,a2|a4,r0,a5"));
+        v.push(p(2, "a1,r0,a2|a4,r0,a5"));
+        v.push(p(1, "a1,r0,a2|u,u|u,u"));
+        v.push(p(3, "a1,a2,a3,a6,r1|a4,r0|u,u"));
     }
     v
 }
@@ -276,14 +267,14 @@ fn main() {
     let stdout = std::io::stdout();
     let mut out = std::io::BufWriter::with_capacity(1 << 20, stdout.lock());
     match a[1].as_str() {
-        "progs" => { for (i, (cap, p)) in programs(2).iter().enumerate() { let _ = writeln!(out, "{} {} {}", i, cap, prog_str(p)); } }
+        "progs" => { for (i, (cap, p)) in programs(a.get(2).map(|s| s.parse().unwrap()).unwrap_or(1)).iter().enumerate() { let _ = writeln!(out, "{} {} {}", i, cap, prog_str(p)); } }
         "exh" => {
             install_with_fuse();
             let bound: usize = a[2].parse().unwrap();
             let shard: usize = a[3].parse().unwrap(); let nsh: usize = a[4].parse().unwrap();
             let maxexecs: usize = a.get(6).map(|s| s.parse().unwrap()).unwrap_or(100000);
-            let crash: u8 = a.get(7).map(|s| s.parse().unwrap()).unwrap_or(2);
-            for (i, (cap, prog)) in programs(crash).into_iter().enumerate() {
+            let set: u8 = a.get(7).map(|s| s.parse().unwrap()).unwrap_or(0);
+            for (i, (cap, prog)) in programs(set).into_iter().enumerate() {
                 if i % nsh != shard { continue; }
                 let cur: std::cell::RefCell<Option<Arc<Sut>>> = std::cell::RefCell::new(None);
                 let mut mk = || { let s = make(cap); let b = bodies(&s, &prog); *cur.borrow_mut() = Some(s); b };
